@@ -11,6 +11,13 @@ import ast
 from .srcmodel import Unknown, FuncRef, Regex, func_params, unparse
 
 
+class Native(object):
+    """a recorder / helper callable injected by a rule into the interpreted environment"""
+
+    def __init__(self, fn):
+        self.fn = fn
+
+
 class _Break(Exception):
     pass
 
@@ -238,6 +245,11 @@ class _Interp(object):
                 if isinstance(base, (dict,)) and f.attr in ("get", "items", "keys", "values"):
                     r = getattr(base, f.attr)(*args)
                     return list(r) if f.attr != "get" else r
+                if isinstance(base, bytearray) and f.attr in ("extend", "append"):
+                    try:
+                        return getattr(base, f.attr)(*args)
+                    except Exception as e:
+                        raise Unknown("bytearray method raised %s" % e)
                 if isinstance(base, list) and f.attr in ("append", "pop", "extend", "index", "count"):
                     try:
                         return getattr(base, f.attr)(*args)
@@ -262,6 +274,8 @@ class _Interp(object):
                 v = self.env[f.id]
                 if isinstance(v, FuncRef):
                     return run_function(self.repo, v, args, kwargs, self.depth + 1)
+                if isinstance(v, Native):
+                    return v.fn(*args, **kwargs)
                 raise Unknown("call of local value")
             if f.id == "reversed":
                 return list(reversed(list(args[0])))
